@@ -15,6 +15,7 @@ mod c02;
 mod c05;
 mod c06;
 mod c07;
+mod c07b;
 mod c08;
 mod c09;
 mod c16;
@@ -88,6 +89,8 @@ fn search(twin: &str, case: Option<&str>, seed: u64) -> Option<Value> {
         c05::search(twin, case, seed)
     } else if twin.starts_with("c06.") {
         c06::search(twin, case, seed)
+    } else if twin.starts_with("c07b.") {
+        c07b::search(twin, case, seed)
     } else if twin.starts_with("c07.") {
         c07::search(twin, case, seed)
     } else if twin.starts_with("c18.") {
@@ -120,6 +123,8 @@ fn replay(twin: &str, input: &Value) -> Value {
         c05::replay(twin, input)
     } else if twin.starts_with("c06.") {
         c06::replay(twin, input)
+    } else if twin.starts_with("c07b.") {
+        c07b::replay(twin, input)
     } else if twin.starts_with("c07.") {
         c07::replay(twin, input)
     } else if twin.starts_with("c18.") {
@@ -152,6 +157,8 @@ fn sweep(twin: &str, seed: u64) -> Value {
         c05::sweep(twin, seed)
     } else if twin.starts_with("c06.") {
         c06::sweep(twin, seed)
+    } else if twin.starts_with("c07b.") {
+        c07b::sweep(twin, seed)
     } else if twin.starts_with("c07.") {
         c07::sweep(twin, seed)
     } else if twin.starts_with("c18.") {
